@@ -435,3 +435,21 @@ def check(repo: Repo, run: Run) -> None:
     ]
     check_grammar(repo, run)
     dumpstack.check_dump(repo, run, grammar(repo))
+    # G4: the tree is a function of the text alone: no process-wide table on the parse path serves a tree that was
+    # built for another text (the storage-channel inventory of C05, restricted to the parser's cells)
+    from . import c05
+
+    sub = Run("C06", run.tier, run.root)
+    c05.check_channels(repo, sub, "C06")
+    n4 = 0
+    for o in sub.obligations:
+        if "CELParser" in o["key"] or "celparser" in o.get("site", ""):
+            o = dict(o)
+            o["rule"] = "C06.G4"
+            o["key"] = "C06.G4|" + o["key"].split("|", 1)[1]
+            run.obligations.append(o)
+            n4 += 1
+    for i in sub.inconclusives:
+        if "CELParser" in i["site"]:
+            run.inconclusive("C06.G4", i["site"], i["why"])
+    run.floor("C06.G4", n4, 1)
